@@ -10,7 +10,7 @@
    false of the code today (known findings F-C06-avail-hang, F-C06-live-hang): that those two loops
    terminate. *)
 From RV.Model Require Import Base Lexer Isa Parser Reader Cfg Avail Live Lints.
-From RV.Proofs Require Import TotalProofs.
+From RV.Proofs Require Import TotalProofs FixProofs.
 
 Definition C06_lex_statement : Prop :=
   forall chk file src, exists items, lex_all chk file src = Ok items.
@@ -44,13 +44,56 @@ Proof. exact only_dataflow_can_diverge. Qed.
 Check C06_only_dataflow_can_diverge : C06_diverge_statement.
 Print Assumptions C06_only_dataflow_can_diverge.
 
-(* on a graph without edges (e.g. straight-line code that was pruned, or a single node) both loops
-   stop after at most two sweeps; more generally a sweep that changes nothing ends the loop *)
+(* A sweep of the value analysis that changes no fact and meets no new node ends the loop, whatever has
+   been visited so far.  (Generalised over the visited set: since the fix of `avail_sweep` - a node seen
+   for the first time counts as a change - a sweep from visited = [] sets the flag on every non-empty
+   graph, so the statement for [] alone would only speak of the empty graph.) *)
 Definition C06_stable_statement : Prop :=
-  forall fuel g, (0 < fuel)%nat ->
-    (let '(_, _, ch) := avail_sweep (seq 0 (length g)) g [] false in ch = false) ->
-    exists g', avail_loop fuel g [] = Ok g'.
+  forall fuel g vis, (0 < fuel)%nat ->
+    (let '(_, _, ch) := avail_sweep (seq 0 (length g)) g vis false in ch = false) ->
+    exists g', avail_loop fuel g vis = Ok g'.
 Theorem C06_stable_sweep_terminates : C06_stable_statement.
 Proof. exact stable_sweep_terminates. Qed.
 Check C06_stable_sweep_terminates : C06_stable_statement.
 Print Assumptions C06_stable_sweep_terminates.
+
+(* A concrete class: on a graph without edges (e.g. straight-line code that was pruned, or a single node;
+   whatever facts the nodes hold at the start) the value analysis returns after at most TWO sweeps, i.e.
+   with any fuel >= 2: the first sweep visits every node and gives it the facts of its transfer from
+   empty ins, the second changes nothing and meets no new node.  (Proofs/FixProofs.v; only the value
+   analysis is covered, nothing is claimed of the liveness loop.) *)
+Definition C06_edgeless_statement : Prop :=
+  forall fuel g, (forall i c, nth_opt g i = Some c -> prevs c = []) ->
+    exists g', avail_loop (S (S fuel)) g [] = Ok g'.
+Theorem C06_edgeless_two_sweeps : C06_edgeless_statement.
+Proof. exact edgeless_two_sweeps. Qed.
+Check C06_edgeless_two_sweeps : C06_edgeless_statement.
+Print Assumptions C06_edgeless_two_sweeps.
+
+(* non-vacuity.  0: ProgramEntry, 1: `li t0, 5`, 2: `addi t1, t0, 1`, 3: `li t0, 7`, edges 0 -> 1 -> 2 -> 3
+   -> 2 (a loop), all facts empty.
+   (i) the run returns (after three sweeps: two are not enough, the second still changes node 2, where
+   t0 = 5 and t0 = 7 meet); on its result [g] with every node visited the hypothesis of
+   C06_stable_sweep_terminates holds (the sweep sets no flag) although the facts are not trivial (t0 = 7
+   after node 3), whereas from visited = [] the same sweep sets the flag (every node is new);
+   (ii) an edgeless graph of one node needs its two sweeps: the bound of C06_edgeless_two_sweeps is exact. *)
+Definition C06_w {A} (a : A) : wth A := mkw a tok_default.
+Definition C06_nd (n : pnode) (nx pv : list nat) : cnode := mkcn n [] true nx pv [] [] [] [] [] 0%N 0%N 0%N.
+Definition C06_g : list cnode :=
+  [ C06_nd (PProgramEntry (Some 0%N) raw_default) [1%nat] [];
+    C06_nd (PIArith (C06_w IAddi) (C06_w 5%N) (C06_w 0%N) (C06_w 5%Z) raw_default) [2%nat] [0%nat];
+    C06_nd (PIArith (C06_w IAddi) (C06_w 6%N) (C06_w 5%N) (C06_w 1%Z) raw_default) [3%nat] [1%nat; 3%nat];
+    C06_nd (PIArith (C06_w IAddi) (C06_w 5%N) (C06_w 0%N) (C06_w 7%Z) raw_default) [2%nat] [2%nat] ].
+Example C06_stable_example :
+  match avail_loop 3 C06_g [] with
+  | Ok g =>
+      length g = 4%nat /\
+      (let '(_, _, ch) := avail_sweep (seq 0 (length g)) g [0%nat; 1%nat; 2%nat; 3%nat] false in ch = false) /\
+      (let '(_, _, ch) := avail_sweep (seq 0 (length g)) g [] false in ch = true) /\
+      match nth_opt g 3 with Some c => rm_get 5%N (rout c) = Some (AConst 7) | None => False end
+  | _ => False
+  end /\
+  avail_loop 2 C06_g [] = OutOfFuel /\
+  avail_loop 1 [C06_nd (PProgramEntry (Some 0%N) raw_default) [] []] [] = OutOfFuel /\
+  (exists g', avail_loop 2 [C06_nd (PProgramEntry (Some 0%N) raw_default) [] []] [] = Ok g').
+Proof. vm_compute. repeat split; try reflexivity. eexists; reflexivity. Qed.
